@@ -460,10 +460,24 @@ func (gb *gcpBalancer) getSubConnRoundRobin(ctx context.Context) *subConnRef {
 	return scRef
 }
 
+// bindSubConnRef binds the given affinity key to the SubConn the subConnRef uses now.
+// The SubConn is read under gb.mu: a refresh swaps it while holding that lock, so a
+// call completing during the swap cannot bind its key to the removed SubConn.
+func (gb *gcpBalancer) bindSubConnRef(bindKey string, ref *subConnRef) {
+	gb.mu.Lock()
+	defer gb.mu.Unlock()
+	gb.bindSubConnLocked(bindKey, ref.getSubConn())
+}
+
 // bindSubConn binds the given affinity key to an existing subConnRef.
 func (gb *gcpBalancer) bindSubConn(bindKey string, sc balancer.SubConn) {
 	gb.mu.Lock()
 	defer gb.mu.Unlock()
+	gb.bindSubConnLocked(bindKey, sc)
+}
+
+// bindSubConnLocked must be called holding gb.mu.
+func (gb *gcpBalancer) bindSubConnLocked(bindKey string, sc balancer.SubConn) {
 	_, ok := gb.affinityMap[bindKey]
 	if !ok {
 		gb.affinityMap[bindKey] = sc
